@@ -193,6 +193,8 @@ func exec(op string) (res string) {
 		return ordReset(w)
 	case "okey", "xokey":
 		return ordKeys(w)
+	case "oagree":
+		return ordAgreeOp(w)
 	case "resetpol":
 		return polReset(w)
 	case "pev":
